@@ -307,6 +307,26 @@ func (t *Tables) Relatives(base string) []string {
 	return out
 }
 
+// Cousins returns the scannable listed ids that share base's name stem (the text before its version
+// number) without being in one of base's table families.
+func (t *Tables) Cousins(base string) []string {
+	v := ParseVer(base)
+	if !v.OK {
+		return nil
+	}
+	in := map[string]bool{}
+	for _, r := range t.Relatives(base) {
+		in[r] = true
+	}
+	var out []string
+	for _, id := range t.AllLic {
+		if w := ParseVer(id); w.OK && w.Stem == v.Stem && !in[id] {
+			out = append(out, id)
+		}
+	}
+	return out
+}
+
 // DrawAllowed draws an allowed list for a pool: entries that can match the pool's terms (same id
 // in other spellings, other versions with and without '+', same / other / no exception, same /
 // other / no DocumentRef), unrelated ids, duplicates; 1..maxLen entries in generated order.
@@ -343,6 +363,10 @@ func (t *Tables) DrawAllowed(rt *rapid.T, pool []Term, excPool []string, maxLen 
 			}
 		default:
 			rel := t.Relatives(src.Base)
+			// plus the listed ids that share the name stem but sit outside the table family
+			// (CC-BY-3.0-US, OFL-1.0-RFN, GPL-2.0-with-classpath-exception, ...): they sort between the
+			// family's members and must neither match nor get in the way
+			rel = append(append([]string{}, rel...), t.Cousins(src.Base)...)
 			base := src.Base
 			if rapid.IntRange(0, 2).Draw(rt, label+"OtherVer") > 0 {
 				base = rapid.SampledFrom(rel).Draw(rt, label+"Base")
